@@ -296,6 +296,38 @@ func (e *Engine) opDump(c *cursor) *Violation {
 		}
 		e.St.Probes["load-refused"]++
 	}
+	// worlds loaded from the same dump are independent worlds (C19): what a third one does to its entities must not
+	// show in the other two, nor in the dump object
+	l3, msg := mkWorld(false)
+	if msg != "" {
+		return e.viol("dump-diff", nil, "LoadEntities into a fresh world panicked: %s", msg)
+	}
+	func() {
+		defer func() { recover() }()
+		for i, me := range e.M.Alive {
+			if i%2 == 0 {
+				l3.W.RemoveEntity(me.H)
+			}
+		}
+		for i := 0; i < 3; i++ {
+			l3.W.NewEntity()
+		}
+	}()
+	if !reflect.DeepEqual(norm0, normDump(d2)) {
+		v := e.viol("cross-talk", nil, "operations on a world loaded from a dump changed the dump object itself")
+		v.Also = append(v.Also, "dump-diff")
+		return v
+	}
+	for _, ls := range []*Sys{l1, l2} {
+		for _, me := range e.M.Alive {
+			if !ls.W.Alive(me.H) {
+				v := e.viol("cross-talk", nil, "removing %v in one world loaded from a dump made it dead in another world loaded from the same dump", me.H)
+				v.Also = append(v.Also, "dump-diff")
+				return v
+			}
+		}
+	}
+	e.St.Probes["sibling-worlds-isolated"]++
 	var keep []*Shadow
 	for _, sh := range e.Shadows {
 		if sh.Kind != "load" {
